@@ -124,6 +124,15 @@ theorem lastAs4_canon (caps : List Cap) : lastAs4 (caps.map canonCap) = lastAs4 
 
 theorem lastAs4?_nil : lastAs4? [] = none := rfl
 
+theorem capTlvs_nil : capTlvs [] = some [] := by rw [capTlvs]
+
+theorem capTlvs_one (code : Nat) (v : Bytes) : capTlvs ([code, v.length] ++ v) = some [(code, v)] := by
+  have e : [code, v.length] ++ v = code :: v.length :: (v ++ []) := by simp
+  rw [e, capTlvs]
+  have hl : ¬ (v ++ []).length < v.length := by simp
+  simp only [hl, dite_false]
+  rw [List.drop_left' rfl, List.take_left' rfl, capTlvs_nil]
+
 theorem parseOpen_enc (asn hold rid : Nat) (caps : List Cap)
     (hasn : asn < 4294967296) (hhold : hold < 65536) (hh12 : hold ≠ 1 ∧ hold ≠ 2)
     (hrid : rid < 4294967296) (hr0 : rid ≠ 0 ∧ rid ≠ 4294967295 ∧ rid / 268435456 ≠ 14)
@@ -170,9 +179,9 @@ theorem parseOpen_enc (asn hold rid : Nat) (caps : List Cap)
     rw [e9]
     simp only [beNat_single, frame_length, plen, ht, List.length_cons, List.length_nil]
     have e10 : List.take 0 (List.drop 10 ([4] ++ be16 (if asn > 65535 then TRANS_ASN else asn) ++ be16 hold ++ be32 rid ++ [0])) = [] := by simp
-    simp only [show ¬ (19 + (9 + (0 + 1)) < 29 + 0) by omega, if_false, e10, optParams, capTlvs, openParams, htr']
+    simp only [show ¬ (19 + (9 + (0 + 1)) < 29 + 0) by omega, if_false, e10, optParams, capTlvs_nil, openParams, htr']
     have : ¬ asn = TRANS_ASN := by omega
-    simp [this, hc0]
+    simp [this, hc0, capTlvs_nil, openParams]
   · -- one capability parameter
     have he' : caps.isEmpty = false := by simpa using he
     have ht : tail = [(caps.flatMap capBytes).length + 2, 2, (caps.flatMap capBytes).length] ++ caps.flatMap capBytes := by
@@ -190,13 +199,11 @@ theorem parseOpen_enc (asn hold rid : Nat) (caps : List Cap)
         = [2, (caps.flatMap capBytes).length] ++ caps.flatMap capBytes := by
       rw [show (10 : Nat) = 9 + 1 by rfl, hd10 1, ht]
       simp only [List.cons_append, List.nil_append, List.drop_succ_cons, List.drop_zero]
-      apply List.take_of_length_le; simp; omega
+      apply List.take_of_length_le; simp
     rw [e10]
     have hop : optParams ([2, (caps.flatMap capBytes).length] ++ caps.flatMap capBytes)
         = some [(2, caps.flatMap capBytes)] := by
-      simp only [optParams, List.cons_append, List.nil_append]
-      rw [capTlvs]
-      simp [capTlvs]
+      exact capTlvs_one 2 _
     rw [hop]
     simp only [openParams, if_true, capTlvs_enc caps (capValue_lt caps (by omega)), decodeCaps_enc caps hcaps,
       List.nil_append]
@@ -214,5 +221,145 @@ theorem parseOpen_enc (asn hold rid : Nat) (caps : List Cap)
       have : ¬ asn = TRANS_ASN := by omega
       rw [htr']
       simp [this]
+
+/-! ### re-encoding the decoded OPEN -/
+
+theorem capValue_canon (c : Cap) : capValue (canonCap c) = capValue c := by
+  cases c with
+  | fqdn h d =>
+      simp only [canonCap, capValue, List.length_map, List.map_map]
+      have : (lower ∘ lower) = lower := by funext b; exact lower_idem b
+      rw [this]
+  | _ => rfl
+
+theorem capCode_canon (c : Cap) : capCode (canonCap c) = capCode c := by cases c <;> rfl
+
+theorem capBytes_canon (c : Cap) : capBytes (canonCap c) = capBytes c := by
+  simp only [capBytes, capValue_canon, capCode_canon]
+
+theorem capOk_canon (c : Cap) (h : capOk c = true) : capOk (canonCap c) = true := by
+  cases c with
+  | fqdn hh d =>
+      simp only [capOk, Bool.and_eq_true, decide_eq_true_eq, List.all_eq_true, canonCap, List.length_map] at h ⊢
+      obtain ⟨⟨h1, h2⟩, h3⟩ := h
+      refine ⟨⟨?_, ?_⟩, h3⟩
+      · intro x hx; obtain ⟨y, hy, rfl⟩ := List.mem_map.mp hx; exact lower_lt y (h1 y hy)
+      · intro x hx; obtain ⟨y, hy, rfl⟩ := List.mem_map.mp hx; exact lower_lt y (h2 y hy)
+  | _ => exact h
+
+theorem capsBlock_canon (caps : List Cap) : (caps.map canonCap).flatMap capBytes = caps.flatMap capBytes := by
+  rw [List.flatMap_map]
+  congr 1
+  funext c
+  exact capBytes_canon c
+
+theorem openBody_canon (asn hold rid : Nat) (caps : List Cap) :
+    openBody asn hold rid (caps.map canonCap) = openBody asn hold rid caps := by
+  unfold openBody
+  rw [capsBlock_canon]
+  cases caps <;> rfl
+
+/-- Domain of the master theorem for OPEN. -/
+def domOpen (i : Input) : Bool :=
+  match i.msg with
+  | .open .. => buildable i && encodable i
+  | _ => false
+
+theorem frameLengths_open (asn hold rid : Nat) (caps : List Cap)
+    (hs : (caps.flatMap capBytes).length + 2 < 256) (hv : ∀ c ∈ caps, (capValue c).length < 256) :
+    frameLengths (frame 1 (openBody asn hold rid caps)) = none := by
+  have hbody : ∃ tail, openBody asn hold rid caps =
+        [4] ++ be16 (if asn > 65535 then TRANS_ASN else asn) ++ be16 hold ++ be32 rid ++ tail ∧
+      tail = (if caps.isEmpty then [0]
+              else [(caps.flatMap capBytes).length + 2, 2, (caps.flatMap capBytes).length] ++ caps.flatMap capBytes) := by
+    refine ⟨_, ?_, rfl⟩
+    unfold openBody openFixed
+    split <;> simp [List.append_assoc]
+  obtain ⟨tail, hb, htail⟩ := hbody
+  obtain ⟨_, _, _, _, p5, plen⟩ := openBody_parts (if asn > 65535 then TRANS_ASN else asn) hold rid tail
+  unfold frameLengths
+  simp only [frame_type, beNat_single, frame_body, show ¬ ((1 : Nat) = 2) by decide, if_false, if_true, hb, plen]
+  have hd10 : List.drop 10 ([4] ++ be16 (if asn > 65535 then TRANS_ASN else asn) ++ be16 hold ++ be32 rid ++ tail)
+      = tail.drop 1 := by
+    rw [show (10 : Nat) = 9 + 1 by rfl, ← List.drop_drop, p5]
+  rw [hd10, p5]
+  by_cases he : caps.isEmpty = true
+  · have ht : tail = [0] := by rw [htail, he]; rfl
+    rw [ht]
+    simp [optParams, capTlvs_nil]
+  · have he' : caps.isEmpty = false := by simpa using he
+    have ht : tail = [(caps.flatMap capBytes).length + 2, 2, (caps.flatMap capBytes).length] ++ caps.flatMap capBytes := by
+      rw [htail, he']; rfl
+    rw [ht]
+    have hop : optParams ([2, (caps.flatMap capBytes).length] ++ caps.flatMap capBytes)
+        = some [(2, caps.flatMap capBytes)] := capTlvs_one 2 _
+    simp only [List.cons_append, List.nil_append, List.drop_succ_cons, List.drop_zero, List.take_succ_cons,
+      List.take_zero, beNat_single, List.length_cons] at hop ⊢
+    rw [hop]
+    simp [capTlvs_enc caps hv]
+    rw [if_neg (by omega), if_pos (by omega)]
+
+theorem parseMessage_open (od : OpaqueDec) (c : Codec) (body : Bytes) :
+    parseMessage od c (frame 1 body) = parseOpen (frame 1 body) := by
+  unfold parseMessage
+  have hl : ¬ (frame 1 body).length < 19 := by simp
+  simp only [hl, if_false, frame_type, beNat_single, if_true]
+
+theorem master_open (p : Profile) (i : Input) (h : domOpen i = true) :
+    check i (run p i) = .ok ∧ ∃ n s dec, run p i = .obs n s dec .t := by
+  unfold domOpen at h
+  have hge := maxFrame_ge i
+  have hmaxF := maxLen_peer i
+  cases hm : i.msg with
+  | unreach f es => simp [hm] at h
+  | reach f nh attrs es => simp [hm] at h
+  | keepalive => simp [hm] at h
+  | rr f => simp [hm] at h
+  | notif c s d => simp [hm] at h
+  | eor f => simp [hm] at h
+  | «open» asn hold rid caps =>
+      simp only [hm, Bool.and_eq_true] at h
+      obtain ⟨hb, henc⟩ := h
+      have hb' := hb
+      simp only [buildable, hm, Bool.and_eq_true, decide_eq_true_eq, ne_eq, decide_not, Bool.not_eq_true',
+        decide_eq_false_iff_not] at hb'
+      obtain ⟨_, ⟨⟨⟨⟨⟨⟨⟨⟨⟨hasn, hhold⟩, hh1⟩, hh2⟩, hrid⟩, hr0⟩, hr1⟩, hr2⟩, hcaps⟩, hrec⟩⟩ := hb'
+      have hcaps' : ∀ x ∈ caps, capOk x = true := List.all_eq_true.mp hcaps
+      have hs : (caps.flatMap capBytes).length + 2 < 256 := by
+        have henc' := henc
+        simp only [encodable, hm, Bool.or_eq_true, decide_eq_true_eq] at henc'
+        rcases henc' with he | he
+        · have : caps = [] := List.isEmpty_iff.mp he
+          rw [this]; simp
+        · rw [capsBlock_length]; omega
+      have hrec' : if asn > 65535 ∨ asn = TRANS_ASN then lastAs4? caps = some asn else True := by
+        by_cases hw : asn > 65535 ∨ asn = TRANS_ASN
+        · rw [if_pos hw]
+          rw [if_pos hw] at hrec
+          simpa using hrec
+        · rw [if_neg hw]; trivial
+      have hblen : (openBody asn hold rid caps).length ≤ 12 + (caps.flatMap capBytes).length := by
+        unfold openBody openFixed
+        split <;> simp <;> omega
+      have hparse := parseOpen_enc asn hold rid caps hasn hhold ⟨hh1, hh2⟩ hrid ⟨hr0, hr1, hr2⟩ hcaps' hs hrec'
+      have hdoe := doEncode_open p (negotiate i.loc i.rem) asn hold rid caps [] hcaps' hs
+      have hdoe' : doEncode p (negotiate i.loc i.rem) (.open asn hold rid (caps.map canonCap)) []
+          = .ok (frame 1 (openBody asn hold rid caps), 0) := by
+        have := doEncode_open p (negotiate i.loc i.rem) asn hold rid (caps.map canonCap) []
+          (by intro x hx; obtain ⟨y, hy, rfl⟩ := List.mem_map.mp hx; exact capOk_canon y (hcaps' y hy))
+          (by rw [capsBlock_canon]; exact hs)
+        rw [openBody_canon] at this
+        exact this
+      have hrun := run_single p i 1 (openBody asn hold rid caps) (.open asn hold rid (caps.map canonCap))
+        (.open asn hold rid (caps.map canonCap)) (by rw [hm]; rfl) (by rw [hm]; exact hdoe)
+        (by rw [hmaxF]; omega) (by omega)
+        (by intro od; rw [parseMessage_open]; exact hparse)
+        rfl rfl rfl rfl hdoe'
+      refine ⟨?_, _, _, _, hrun⟩
+      rw [hrun]
+      apply check_single i 1 _ _ hb henc (by rw [hm]; rfl) (by omega) (by omega)
+      · exact frameLengths_open asn hold rid caps hs (capValue_lt caps (by omega))
+      · intro frames; simp [opaqueClause, hm]
+      · intro frames; simp [contentClause, hm]
 
 end Rbgp.Enc
